@@ -309,6 +309,10 @@ def _work_lemma(task):
                 r = solve.check_vc(pc, goal, tier, hints=hints)
                 if r["status"] != "unsat" and gkey is not None:
                     open_goals.add(gkey)
+            if r["status"] == "sat" and "(proof-internal)" in sub:
+                # an auxiliary invariant of the proof (it speaks about incidental encodings, e.g. the numbers of the
+                # automaton's states): refuting it refutes the proof, not the property -> undecided, never a violation
+                r = dict(r, status="unknown", backend="%s refuted a proof-internal invariant" % r.get("backend"))
             rec = {"name": "%s.lemma.%s%s" % (prop, name, ("." + sub) if sub else ""), "kind": "lemma",
                    "status": r["status"], "backend": r.get("backend"), "time": round(r.get("time", 0.0), 3),
                    "info": {}, "k": k}
